@@ -209,7 +209,12 @@ def thorough_extras(pid, ctx):
     if os.environ.get("VERIF_NO_SELFTEST") != "1" and not os.environ.get("VERIF_FACTS_CACHE"):
         rs = selftest.run(only_property=pid)
         extra["seeded_corpus"] = [{"case": r["case"], "detected": r["ok"], "hit": r.get("hit"), "missed": r.get("missed"), "reason": r.get("reason"), "seconds": r["seconds"]} for r in rs]
-        missed = [r["case"] for r in rs if not r["ok"]]
+        # a corpus patch that does not apply means /repo's tree is not the reference tree the corpus was cut against (somebody is
+        # trying an edit): that variant cannot be replayed here and says nothing about the checker — it is recorded and skipped
+        skipped = [r["case"] for r in rs if not r["ok"] and "does not apply" in (r.get("reason") or "")]
+        if skipped:
+            extra["seeded_corpus_skipped"] = {"reason": "patch does not apply to the current tree", "cases": skipped}
+        missed = [r["case"] for r in rs if not r["ok"] and r["case"] not in skipped]
         if missed:
             extra["selftest_failed"] = "seeded variants not detected: %s" % missed
     extra["thorough_seconds"] = round(time.time() - t0, 1)
